@@ -459,6 +459,34 @@ func (c *chaos) injectFault(i int) {
 		c.plan = append(c.plan, fmt.Sprintf("t=%v swap %s->%s", c.r.Now(), out, in))
 		c.r.Count("fault_swap", 1)
 		c.swaps.Add(1)
+		if g.Chance(45) {
+			// the server is replaced because it (and possibly the shard's leader) cannot be reached:
+			// the swap's election runs with part of the old ensemble silent
+			silent := []string{out}
+			if l := c.mon.currentLeader(int64(g.Intn(int(c.o.Shards)))); l != "" && l != out && g.Chance(50) {
+				silent = append(silent, l)
+			}
+			others := append([]string{"coord"}, c.cl.NodeNames...)
+			for _, v := range silent {
+				for _, o := range others {
+					if o != v {
+						c.w.Net.Partition(v, o)
+						c.w.Net.Partition(o, v)
+					}
+				}
+			}
+			d := time.Duration(g.Range(3000, 30000)) * time.Millisecond
+			c.plan = append(c.plan, fmt.Sprintf("t=%v (swap with %v unreachable for %v)", c.r.Now(), silent, d))
+			c.r.Count("fault_swap_with_unreachable_members", 1)
+			c.w.Net.After(d, fmt.Sprintf("heal-swap/%d", i), func() {
+				for _, v := range silent {
+					for _, o := range others {
+						c.w.Net.Heal(v, o)
+						c.w.Net.Heal(o, v)
+					}
+				}
+			})
+		}
 		c.cl.SetConfig(cfg)
 	case "mutecoord":
 		// the leader's answers to the coordinator are lost: the coordinator declares it dead and
